@@ -654,8 +654,56 @@ def r9_function_reachability_ignores_dead_definitions(ctx):
         ctx.ok("function-reachability|call-graph-only", fn.where(), "follows calls from the script body without regard to statement reachability")
 
 
+def r10_a_hoisted_function_meets_its_own_block_s_variables(ctx):
+    """A function is visible throughout its block, so it can run before a `make` of that block has.  The lookup by id then has
+    to find a slot of *this* activation: the variables of a block that defines functions exist (null) from block entry,
+    whatever the order of the `make` and the definition in the text - otherwise the search goes on down the scope stack and,
+    in a recursive function, reads or assigns the caller's activation's variable.  Shared with C06-R5's discharge."""
+    from .c06 import block_variables_exist_from_block_entry
+    ok, why = block_variables_exist_from_block_entry(ctx)
+    hb = ctx.lib.fns.get("runtime::Runtime::hoist_block_functions")
+    if hb is not None:
+        ctx.touch(hb)
+    if ok:
+        ctx.ok("hoisted|own-block-variables-exist", hb.where() if hb is not None else "", why)
+    else:
+        ctx.bad("hoisted|own-block-variables-exist", hb.where() if hb is not None else "", "%s: a hoisted function that runs before the `make` finds no slot in its own activation and takes the same-named variable of an older activation" % why)
+
+
+def r11_static_scope_searches_go_innermost_first(ctx):
+    """The checker resolves names the way the runtime does: every search over its stack of variable scopes (look-up, type
+    widening, redeclaration) starts at the innermost scope and, inside a scope, at the newest entry.  A routine that walks the
+    stack outermost-first touches the shadowed outer variable instead of the visible one."""
+    n = 0
+    for fid, fn in sorted(ctx.lib.fns.items()):
+        if fn.file != "src/resolver.rs":
+            continue
+        for c in fn.calls():
+            short = (c.callee or "").split("::")[-1]
+            if short not in ("iter", "iter_mut") or not c.args:
+                continue
+            t = sh(ne(fn.deep(c.args[0], 8))).replace("&mut ", "")
+            if not t.endswith("self.variable_scopes") and "deref_mut(self.variable_scopes)" not in t and "deref(self.variable_scopes)" not in t:
+                continue
+            # what consumes this iterator: a search (find / find_map / any / position / a loop) needs rev() in between
+            uses = [u for u in fn.calls() if u.block != c.block and any(isinstance(a, dict) and "iter" in sh(ne(fn.deep(a, 6))) and "variable_scopes" in sh(ne(fn.deep(a, 6))) for a in u.args[:1])]
+            searching = [u for u in uses if (u.callee or "").split("::")[-1] in ("find", "find_map", "any", "position", "next", "into_iter", "try_fold", "rev", "rposition", "rfind")]
+            if not searching:
+                continue
+            n += 1
+            ctx.touch(fn)
+            short_fn = parent_fn(fid).split("::")[-1]
+            reversed_ = any((u.callee or "").split("::")[-1] in ("rev", "rposition", "rfind") for u in uses) or any("rev(" in sh(ne(fn.deep(a, 8))) for u in uses for a in u.args[:1])
+            ordn = sum(1 for r in ctx.records if r["rule"] == ctx.rule and r["instance"].startswith("static-search|%s#" % short_fn))
+            if reversed_:
+                ctx.ok("static-search|%s#%d" % (short_fn, ordn + 1), fn.where(c.block), "innermost scope first")
+            else:
+                ctx.bad("static-search|%s|outermost-first" % short_fn, fn.where(c.block), "%s searches the checker's variable scopes from the outermost scope: with a shadowed name it reaches the outer variable, while look-ups see the inner one (a reassigned inner variable keeps its stale type and a valid use of the new type is rejected)" % short_fn)
+    ctx.floor("searches over the checker's variable scopes", n, 2)
+
+
 RULES = [("C04-R1", r1_id_directed_lookup), ("C04-R2", r2_innermost_first), ("C04-R3", r3_sorted_tables), ("C04-R4", r4_scope_discipline), ("C04-R4b", r4b_arguments_belong_to_the_caller), ("C04-R4c", r4c_initialiser_sees_the_old_scope), ("C04-R4d", r4d_declarations_stay_in_their_block),
-         ("C04-R5", r5_recorded_is_consumed), ("C04-R5b", r5b_record_unconditional), ("C04-R5c", r5c_query_on_the_variable_node), ("C04-R6", r6_hoisting_asks_the_right_table), ("C04-R7", r7_name_and_id_variants_agree), ("C04-R8", r8_redeclaration_finds_its_variable_by_name), ("C04-R9", r9_function_reachability_ignores_dead_definitions)]
+         ("C04-R5", r5_recorded_is_consumed), ("C04-R5b", r5b_record_unconditional), ("C04-R5c", r5c_query_on_the_variable_node), ("C04-R6", r6_hoisting_asks_the_right_table), ("C04-R7", r7_name_and_id_variants_agree), ("C04-R8", r8_redeclaration_finds_its_variable_by_name), ("C04-R9", r9_function_reachability_ignores_dead_definitions), ("C04-R10", r10_a_hoisted_function_meets_its_own_block_s_variables), ("C04-R11", r11_static_scope_searches_go_innermost_first)]
 
 EXPLANATION = (
     "R1: at run time every name-keyed accessor is reachable only on the None outcome of the matching binding query and every "
